@@ -69,13 +69,16 @@ class C20(Harness):
             for pi, key in enumerate(structs):
                 for f in table[key]['fields']:
                     if not f['field'] or not f['optional']: continue
-                    good = None
+                    goods = []
                     # relationship fields get a value with every optional part (negated architectures are a known finding of C10)
                     for v in ([RICH_RELATION] if 'Relations' in f['ty'] else []) + ([RICH_VCS] if 'Vcs' in f['ty'] else []) + tc.POOL:
                         ps = [[list(kv) for kv in p] for p in paras]; ps[pi].append([f['field'], v])
-                        if rp.call({'op': 'total', 'entry': entry, 's': tc.render(ps)}).get('ok'): good = v; break
-                    if good is None: continue
-                    cs.append(dict(common, fam='optional', para=pi, field=f['field'], stringy=is_stringy(f['ty']), good=good, order=1))
+                        if rp.call({'op': 'total', 'entry': entry, 's': tc.render(ps)}).get('ok'):
+                            goods.append(v)
+                            if is_stringy(f['ty']) or len(goods) == 3: break
+                    # a typed (non-string) field is exercised with up to three spellings the current reader accepts (e.g. yes / no of a flag)
+                    for good in goods:
+                        cs.append(dict(common, fam='optional', para=pi, field=f['field'], stringy=is_stringy(f['ty']), good=good, order=1))
                 for f in table[key]['fields']:
                     if f['field'] and not f['optional']:
                         cs.append(dict(common, fam='missing', para=pi, field=f['field'], order=0))
